@@ -73,6 +73,9 @@ for v in NUMS:
     SYNTAXES.append(('simple', 'INTEGER', ('range', [(v,)])))
 for a, b in [(I64MIN, U64), (-(U32 + 1), U32 + 1), (0, U32), (-U32, -1)]:
     SYNTAXES.append(('simple', 'INTEGER', ('range', [(a, b)])))
+# a range whose two ends are the same value stays a range of two ends
+SYNTAXES += [('simple', 'INTEGER', ('range', [(6, 6)])), ('simple', 'INTEGER', ('range', [(1, 1), (3, 5), (-7, -7)])),
+             ('simple', 'OCTET STRING', ('size', [(4, 4)])), ('simple', 'OCTET STRING', ('size', [("'10'h", "'10'h")]))]
 for lit in LITS:
     SYNTAXES.append(('simple', 'INTEGER', ('range', [(lit,)])))
     SYNTAXES.append(('simple', 'OCTET STRING', ('size', [(lit, "'ffff'H")])))
